@@ -26,12 +26,17 @@ def run(tier):
     # ---- cancellation sweep
     K = 400 if thorough else 140
     corpus = [(name, p, root, render(p, root)) for name, p, root in gen_loops.loops()]
+    # every program also runs in a state made by NewThread with the context attached to that state
+    corpus = corpus + [(name + "@thread", p, root, src) for name, p, root, src in corpus]
     runs, index = [], {}
     for ci, (name, p, root, src) in enumerate(corpus):
         for k in range(1, K + 1):
             rid = len(runs) + 1
             index[rid] = (ci, k)
-            runs.append({"id": rid, "src": src, "fault": {"mode": "cancel", "k": k}, "budget": 200000})
+            run = {"id": rid, "src": src, "fault": {"mode": "cancel", "k": k}, "budget": 200000}
+            if name.endswith("@thread"):
+                run["opts"] = {"thread": True}
+            runs.append(run)
     outs = lsem.run_real(runs, "c11", timeout=2400)
     recs = []
     per = {}
@@ -49,7 +54,7 @@ def run(tier):
                                {"program": name, "src": src, "k": k, "real": o})
                 direct += 1
                 oc_tok = ["err", ["s", []]]
-            cancelled = o["polls"] >= k
+            cancelled = o["polls"] >= k or o["outcome"][0] == "err" and "verif-cancel" in bytes(o["outcome"][1][1] if o["outcome"][1][0] == "s" else []).decode("latin-1")
             rl.append({"emits": o["emits"], "outcome": o["outcome"][:2] if oc in ("ok", "err") else ["err", ["s", []]],
                        "after": o.get("after", 0), "cancelsp": o.get("cancelsp", 0), "cancelemits": o.get("cancelemits", 0),
                        "cancelled": cancelled})
